@@ -384,15 +384,15 @@ def replay_expr(ctx, case):
 
 
 def sub_assign(ctx):
-    ctx.hyp(assign_case(), lambda c: body_assign(ctx, c), ctx.n(300, 6000))
+    ctx.hyp(assign_case(), lambda c: body_assign(ctx, c), ctx.n(900, 6000))
 
 
 def sub_accum(ctx):
-    ctx.hyp(accum_case(), lambda c: body_accum(ctx, c), ctx.n(400, 8000))
+    ctx.hyp(accum_case(), lambda c: body_accum(ctx, c), ctx.n(1200, 8000))
 
 
 def sub_opassign(ctx):
-    ctx.hyp(opassign_case(), lambda c: body_opassign(ctx, c), ctx.n(300, 3000))
+    ctx.hyp(opassign_case(), lambda c: body_opassign(ctx, c), ctx.n(900, 3000))
 
 
 SUBCHECKS = [
